@@ -3,6 +3,7 @@ package checks
 import (
 	"errors"
 	"fmt"
+	"google.golang.org/protobuf/types/known/anypb"
 	"sort"
 	"strconv"
 	"strings"
@@ -212,6 +213,37 @@ func c20Walk(m protoreflect.Message, want protoreflect.FullName, out *[]proto.Me
 	})
 }
 
+// c20CountInAny counts the messages of the wanted type inside Any-packed contained resources (recursively).
+func c20CountInAny(m protoreflect.Message, want protoreflect.FullName) int {
+	n := 0
+	m.Range(func(fd protoreflect.FieldDescriptor, v protoreflect.Value) bool {
+		if fd.Message() == nil || fd.IsMap() {
+			return true
+		}
+		visit := func(c protoreflect.Message) {
+			if a, ok := c.Interface().(*anypb.Any); ok {
+				cr := &bcrpb.ContainedResource{}
+				if a.UnmarshalTo(cr) == nil {
+					var inner []proto.Message
+					c20Walk(cr.ProtoReflect(), want, &inner)
+					n += len(inner) + c20CountInAny(cr.ProtoReflect(), want)
+				}
+				return
+			}
+			n += c20CountInAny(c, want)
+		}
+		if fd.IsList() {
+			for i := 0; i < v.List().Len(); i++ {
+				visit(v.List().Get(i).Message())
+			}
+		} else {
+			visit(v.Message())
+		}
+		return true
+	})
+	return n
+}
+
 func c20HasContainedResourceField(m protoreflect.Message) bool {
 	found := false
 	var walk func(m protoreflect.Message)
@@ -246,6 +278,8 @@ type c20Extractor struct {
 	name string
 	full protoreflect.FullName
 	run  func(res fhir.Resource) (elems []proto.Message, labels []string, err error)
+	// plain: the path-less entry point, which has no labelling to fail on
+	plain func(res fhir.Resource) ([]proto.Message, error)
 }
 
 func c20MkExtractor[T proto.Message](name string) c20Extractor {
@@ -266,6 +300,13 @@ func c20MkExtractor[T proto.Message](name string) c20Extractor {
 			return es, ls, fmt.Errorf("ExtractAll and ExtractAllWithPath disagree: %d vs %d (%v)", len(plain), len(got), err2)
 		}
 		return es, ls, nil
+	}, plain: func(res fhir.Resource) ([]proto.Message, error) {
+		got, err := element.ExtractAll[T](res)
+		var es []proto.Message
+		for _, g := range got {
+			es = append(es, g)
+		}
+		return es, err
 	}}
 }
 
@@ -276,8 +317,8 @@ func init() {
 	}
 	urls := []string{"http://u", "http://v", "http://w"}
 	core.Register(&core.Check{
-		ID: "C20",
-		Rule: "all 146 resource type names (from the ContainedResource descriptor): create by name / Type / TypeOf, containedresource and bundle-entry wrap/unwrap identity, bundle.Unwrap order over all ordered selections of <=3 of 5 resources, rejected names; all 49 Extension.value[x] alternatives (from the descriptor) and every other registered element type: FromElement/Unwrap identity and the field that is set; extension mutators {Upsert, SetByURL x 0/1/2 values, AppendInto, Overwrite, Clear} over all extension lists of length 0..4 over 3 URLs x target URL in {present-able, absent} x 2 carriers against a list model with pointer identity of the untouched extensions; ExtractAllWithPath for 6 element types over the schema-covering resource family (every field populated, each-choice covering, depth 2 quick / 3 thorough): pointer set equals the harness's own protoreflect walk, labels unique, each label resolves in the jsonformat tree and (without choice-typed steps) through fhirpath.Evaluate to that very element; non-trivial = distinct (case, outcome)",
+		ID:          "C20",
+		Rule:        "all 146 resource type names (from the ContainedResource descriptor): create by name / Type / TypeOf, containedresource and bundle-entry wrap/unwrap identity, bundle.Unwrap order and bundle.UnwrapMap grouping over all ordered selections of <=3 of 5 resources, rejected names; all 49 Extension.value[x] alternatives (from the descriptor) and every other registered element type: FromElement/Unwrap identity and the field that is set; extension mutators {Upsert, SetByURL x 0/1/2 values, AppendInto, Overwrite, Clear} over all extension lists of length 0..4 over 3 URLs x target URL in {present-able, absent} x 2 carriers against a list model with pointer identity of the untouched extensions; the path-less ExtractAll (every own element exactly once, also where labelling is documented to fail) and ExtractAllWithPath for 6 element types over the schema-covering resource family (every field populated, each-choice covering, depth 2 quick / 3 thorough): pointer set equals the harness's own protoreflect walk, labels unique, each label resolves in the jsonformat tree and (without choice-typed steps) through fhirpath.Evaluate to that very element; non-trivial = distinct (case, outcome)",
 		Assumptions: []string{"google/fhir jsonformat output is the FHIR JSON tree", "elements inside a ContainedResource-typed field (Bundle.entry.resource, Parameters.parameter.resource) must yield the documented ErrFhirPathNotImplemented"},
 		Subs: func(tier string) []core.Sub {
 			names := lib.ResourceTypeNames()
@@ -427,6 +468,29 @@ func init() {
 						}
 						if !ok {
 							r.Fail("bundle.Unwrap|order-or-identity", core.W{"selection": sel, "panic": fmt.Sprint(pi)})
+						}
+						// the grouped view holds the same resources: per type, the entries' resources in order (two entries
+						// may well carry the same type and id, e.g. two versions of one resource)
+						var groups map[resource.Type][]fhir.Resource
+						pi = core.Try(func() { groups = bundle.UnwrapMap(bundle.NewCollection(bundle.WithEntries(entries...))) })
+						r.Eval()
+						okMap := pi == nil
+						total := 0
+						for _, g := range groups {
+							total += len(g)
+						}
+						okMap = okMap && total == len(sel)
+						if okMap {
+							next := map[resource.Type]int{}
+							for _, k := range sel {
+								t := resource.TypeOf(pool[k])
+								g := groups[t]
+								okMap = okMap && next[t] < len(g) && c20Same(g[next[t]], pool[k])
+								next[t]++
+							}
+						}
+						if !okMap {
+							r.Fail("bundle.UnwrapMap|not-the-entries-resources-per-type-in-order", core.W{"selection": sel, "panic": fmt.Sprint(pi), "resources_in_groups": total})
 						}
 					}
 					// an entry without a resource unwraps to nil and keeps its position
@@ -613,6 +677,30 @@ func init() {
 							}
 							var want []proto.Message
 							c20Walk(res.ProtoReflect(), ex.full, &want)
+							// the path-less extraction works on every resource, also where labelling is documented to fail:
+							// every own element exactly once, plus a copy of every element inside an Any-packed contained resource
+							var pl []proto.Message
+							var perr error
+							ppi := core.Try(func() { pl, perr = ex.plain(res) })
+							r.Eval()
+							if ppi != nil {
+								r.Fail("extract-plain|"+cls+"|"+ppi.Key(), w)
+							} else if perr != nil {
+								r.Fail("extract-plain|"+cls+"|error", core.W{"type": n, "variant": vi, "element_type": ex.name, "err": perr.Error()})
+							} else {
+								inAny := c20CountInAny(res.ProtoReflect(), ex.full)
+								pseen := map[proto.Message]int{}
+								for _, e := range pl {
+									pseen[e]++
+								}
+								okPlain := len(pl) == len(want)+inAny
+								for _, e := range want {
+									okPlain = okPlain && pseen[e] == 1
+								}
+								if !okPlain {
+									r.Fail("extract-plain|"+cls+"|not-every-element-exactly-once", core.W{"type": n, "variant": vi, "extracted": len(pl), "own_elements": len(want), "inside_contained": inAny})
+								}
+							}
 							if err != nil {
 								if nested && errors.Is(err, element.ErrFhirPathNotImplemented) {
 									r.Outcome("documented-error")
